@@ -360,14 +360,15 @@ class SpecEnv:
             s = field_sort(n)
             val = as_int(val) if s == AVI else as_bool(val) if s == AVB else as_v(val)
             return self.cur.get(n) == z3.Store(self.old.get(n), o, val)
-        if f == "only":
-            # only(o, 'f1', 'f2'): fields f1,f2 changed at most at object o
+        if f in ("only", "only_pre"):
+            # only(o, 'f1', 'f2'): fields f1,f2 changed at most at object o (only_pre: since loop entry)
             o = as_v(self.ev(a[0]))
             cs = []
             x = z3.Const(fresh_name("x!only"), V)
+            base = self.old if f == "only" else self.pre
             for fn_ in a[1:]:
                 n = self._str(fn_)
-                cs.append(smt.forall([x], z3.Implies(x != o, z3.Select(self.cur.get(n), x) == z3.Select(self.old.get(n), x)),
+                cs.append(smt.forall([x], z3.Implies(x != o, z3.Select(self.cur.get(n), x) == z3.Select(base.get(n), x)),
                                     patterns=[z3.Select(self.cur.get(n), x)]))
             return z3.And(*cs)
         if f == "opt":
@@ -386,7 +387,8 @@ class SpecEnv:
             # two_state('old'|'pre'): TwoState(that heap, current evaluation heap)
             which = self._str(a[0]) if a else "old"
             h0 = self.old if which == "old" else self.pre
-            return z3.And(*self.eng.two_state(h0, self.heap))
+            skip = tuple(self._str(x) for x in a[1:])
+            return z3.And(*self.eng.two_state(h0, self.heap, skip))
         if f in self.eng.reg.macros:
             params, text = self.eng.reg.macros[f]
             if len(params) != len(a):
